@@ -52,3 +52,80 @@ func (p *Pool) Get() any {
 }
 
 func (p *Pool) Put(v any) { p.free = append(p.free, v) }
+
+// OnceFunc / OnceValue mirror the helpers of package sync.
+func OnceFunc(f func()) func() {
+	var o Once
+	return func() { o.Do(f) }
+}
+
+func OnceValue[T any](f func() T) func() T {
+	var o Once
+	var v T
+	return func() T {
+		o.Do(func() { v = f() })
+		return v
+	}
+}
+
+// Cond mirrors sync.Cond: a waiter parks on a private channel that Signal / Broadcast close.
+type Cond struct {
+	L       Locker
+	waiters []*rt.Chan[struct{}]
+}
+
+func NewCond(l Locker) *Cond { return &Cond{L: l} }
+
+func (c *Cond) Wait() {
+	w := rt.MakeChan[struct{}](0)
+	c.waiters = append(c.waiters, w)
+	c.L.Unlock()
+	rt.Recv2(w)
+	c.L.Lock()
+}
+
+func (c *Cond) Signal() {
+	if len(c.waiters) > 0 {
+		w := c.waiters[0]
+		c.waiters = c.waiters[1:]
+		rt.Close(w)
+	}
+}
+
+func (c *Cond) Broadcast() {
+	ws := c.waiters
+	c.waiters = nil
+	for _, w := range ws {
+		rt.Close(w)
+	}
+}
+
+// Map mirrors sync.Map for the operations a pipeline stage could plausibly use; every operation is a scheduling point.
+type Map struct{ m map[any]any }
+
+func (m *Map) Load(k any) (any, bool) { rt.Yield(); v, ok := m.m[k]; return v, ok }
+func (m *Map) Store(k, v any) {
+	rt.Yield()
+	if m.m == nil {
+		m.m = map[any]any{}
+	}
+	m.m[k] = v
+}
+func (m *Map) LoadOrStore(k, v any) (any, bool) {
+	rt.Yield()
+	if old, ok := m.m[k]; ok {
+		return old, true
+	}
+	if m.m == nil {
+		m.m = map[any]any{}
+	}
+	m.m[k] = v
+	return v, false
+}
+func (m *Map) Delete(k any) { rt.Yield(); delete(m.m, k) }
+func (m *Map) LoadAndDelete(k any) (any, bool) {
+	rt.Yield()
+	v, ok := m.m[k]
+	delete(m.m, k)
+	return v, ok
+}
